@@ -268,7 +268,7 @@ def impl_env(hashseed):
     return env
 
 
-def run_impl(module, cases, hashseeds, per_case_timeout=10, shards=None):
+def run_impl(module, cases, hashseeds, per_case_timeout=10, shards=None, retry_done=False):
     """Runs module.impl(case) for every case in fresh interpreters (one per shard); shard i uses
     hashseeds[i % len]. Returns list of observables (same order). Case i is given the hash seed in
     the result as obs['_hs']."""
@@ -298,6 +298,28 @@ def run_impl(module, cases, hashseeds, per_case_timeout=10, shards=None):
             if isinstance(o, dict):
                 o["_hs"] = hs
             res[i] = o
+    # a time-out under load is not evidence of anything: every timed-out case is run again, alone, with a much larger budget;
+    # only a case that still does not finish keeps its {"timeout": true} observable
+    slow = [i for i, o in enumerate(res) if isinstance(o, dict) and o.get("timeout") and not retry_done]
+    if slow:
+        by_hs = {}
+        for i in slow:
+            by_hs.setdefault(res[i].get("_hs", hashseeds[0]), []).append(i)
+        for hs, part in by_hs.items():
+            fin = os.path.join(d, "impl_retry_in.json")
+            fout = os.path.join(d, "impl_retry_out.json")
+            with open(fin, "w") as fh:
+                json.dump([cases[i] for i in part], fh)
+            p = subprocess.run([PY, os.path.join(ROOT, "harness", "impl_worker.py"), module, fin, fout, str(max(60, 8 * per_case_timeout))],
+                               env=impl_env(hs), cwd=d, capture_output=True, text=True)
+            if p.returncode != 0 or not os.path.exists(fout):
+                raise HarnessError("impl worker failed on retry (%s): %s" % (module, p.stderr[-2000:]))
+            for i, o in zip(part, json.load(open(fout))):
+                if isinstance(o, dict):
+                    o["_hs"] = hs
+                    if not o.get("timeout"):
+                        o["_retried_after_timeout"] = True
+                res[i] = o
     return res
 
 
